@@ -597,10 +597,13 @@ Definition recover_validate (s : stage) (o : nat) : stage :=
   then set_cmps (aremove n (cmps s)) (set_fulls (aremove n (fulls s)) s)
   else process (to_cache s o ST_RECEIVED) o.
 
-(* [oldest] = modification time of the oldest companion found on the stage (an input:
-   the model keeps no file times; [now] when there is none): the receive log is read
-   back to a day before it, so that a retransmission that was in flight when the
-   process stopped - however long ago - is compared with the record of its delivery *)
+(* [oldest] = how far back the companions found on the stage reach: the oldest
+   modification time of a companion, or the oldest (sender-side) time of a file a
+   companion stands for, whichever is earlier (an input: the model keeps no file
+   times; [now] when there is none).  The receive log is read back to a day before
+   it, so that a retransmission that was in flight when the process stopped - however
+   long ago it stopped, and however long after the delivery the retransmission came -
+   is compared with the record of its delivery *)
 Definition recover (s : stage) (now oldest : Z) : stage :=
   let '(s1, fin, val) := fold_left recover_one (cmps s) (s, [], []) in
   let s2 := build_cache s1 now (Z.min now oldest - 86400) in
